@@ -11,14 +11,18 @@ HARNESS_BIN = "engine"
 SINGLE = []      # no known finding left for the acyclic engine (F1, F14 fixed by 2abe9f6, b832249)
 PARTIAL = [
     "Qbice.CoreFw.core_query_sound_partial / core_inner_query_sound_partial / core_history_sound_partial / "
-    "core_*_no_out_of_fuel_partial: proved for ALL acyclic programs in which no projection reads a projection (hypothesis NoProjOverProj: input, normal, firewall, "
-    "projection-over-firewall and external-input queries; ordered reads and unordered groups; transitive-firewall-callee sets, the trust rule for "
-    "clean edges, same-epoch propagation from a changed firewall, pending flags) = the design of the code after the "
-    "fixes b832249 and 2abe9f6. Projections over projections are in the model (validated against the full "
-    "model and the oracle on 240 000 generated cases with 0 differences, and compared with the implementation on every "
-    "run) but the invariant for pending flags over chains of projections is not proved: C01_full_statement / "
-    "C01_termination_full_statement are kept as defs. The firewall-free theorems (Qbice.Core.*) remain, and C07/C08 "
-    "build on them.",
+    "core_*_no_out_of_fuel_partial (all five kinds; ordered reads and unordered groups; transitive-firewall-callee "
+    "sets, the trust rule for clean edges, same-epoch propagation from a changed firewall, pending flags, backward "
+    "projection as a pedantic repair = the design of the code after the fixes b832249, 2abe9f6 and 22e1f15): proved "
+    "under Shape p - every projection that is READ BY a projection has a value-independent read sequence "
+    "(projections read firewalls and static projections only; a projection's own reads may be value-dependent, so "
+    "dynamic projections sit on top of static chains of any depth; NoProjOverProj.shape and StaticProj.shape are the "
+    "two earlier classes). Missing: dynamic projections read by projections (C01_full_statement, "
+    "C01_termination_full_statement stay defs: the needed invariant about a reader's OLD observation of a pending "
+    "projection is history-dependent; the comment at C01_full_statement states the missing lemma and a candidate "
+    "ghost invariant). That class is in the models and is compared with the implementation on every run (generator "
+    "family pjchain: 280 000 cases with 0 differences between CoreFw, the full model, the oracle and the "
+    "implementation). The firewall-free theorems (Qbice.Core.*) remain as PART 2.",
 ]
 ASSUMPTIONS = [
     "fingerprints are injective on the values of a run (value = fingerprint in the models; C13)",
